@@ -690,8 +690,8 @@ fn drive_pos(ctx: &mut Ctx, desc: &str, nonempty: bool, f: &dyn Fn() -> Result<(
 
 macro_rules! for_ns {
     ($ctx:expr, [$($n:ty),*], [$($tn:ty),*], $N:ident => $body:block) => {
-        $( { type $N = $n; $body } )*
-        { $( { type $N = $tn; $body } )* }
+        $( { type $N = $n; if <$N as generic_array::typenum::Unsigned>::USIZE <= vcommon::maxn() { $body } } )*
+        { $( { type $N = $tn; if <$N as generic_array::typenum::Unsigned>::USIZE <= vcommon::maxn() { $body } } )* }
     };
 }
 
